@@ -958,6 +958,26 @@ func registerJSONModel(e *Engine) {
 		res := x.callFunction(wf, []Value{w.V, sliceOfBytes(b)}, nil).(TupleVal)
 		return res[1], true
 	}
+	// swag's name provider (reflection over struct tags): the JSON member names of the subject's struct type
+	e.intrinsics["(*github.com/go-openapi/swag.NameProvider).GetJSONNames"] = func(x *Exec, fn *ssa.Function, a []Value) (Value, bool) {
+		iv := a[1].(*IfaceVal)
+		if iv.T == nil {
+			return &SliceVal{Nil: true}, true
+		}
+		t := iv.T
+		if p, ok := t.Underlying().(*types.Pointer); ok {
+			t = p.Elem()
+		}
+		st, ok := t.Underlying().(*types.Struct)
+		if !ok {
+			return &SliceVal{Nil: true}, true
+		}
+		var names []string
+		for _, f := range jsonFieldsOf(st, nil, nil) {
+			names = append(names, f.tag.name)
+		}
+		return mkStrSlice(names), true
+	}
 	e.allowFns["(*encoding/json.RawMessage).UnmarshalJSON"] = true
 	e.allowFns["(encoding/json.RawMessage).MarshalJSON"] = true
 	for _, n := range []string{"WriteJSON", "ReadJSON", "ConcatJSON"} {
